@@ -143,3 +143,104 @@ Proof. exact registered_only_if_superset. Qed.
 Theorem C06_gated_machine_refines_broker : forall cfg v s g s' r,
   gstep cfg v s g = Some (s', r) -> s' = s \/ exists l, step v s l = Some s'.
 Proof. exact gstep_refines. Qed.
+
+(* ---- histories: the decisions do not depend on earlier requests ----
+   Model/RelayCheck.v broker_run: one broker context over any sequence of polls (pattern-carrying, legacy) and
+   re-installations of the patterns; proxy_run: one proxy over any sequence of broker-supplied relay URLs.
+   The correspondence check drives ONE long-lived BrokerContext / SnowflakeProxy through such sequences and
+   compares every answer with these runs (ops pollseq, urlseq, urlseqfull). *)
+From Snow Require Import Proofs.RelayHistoryProofs.
+
+(* The answer to a poll at any position of any history is the decision for that poll alone under the
+   patterns then in force ... *)
+Theorem C06_broker_history_independent : forall (cfg : broker_cfg) (pre : list broker_event) (pat : option bytes)
+                                                (post : list broker_event),
+  nth_error (broker_run cfg (pre ++ EvPoll pat :: post)) (List.length pre)
+  = Some (Some (broker_accepts_poll (broker_cfg_after cfg pre) pat)).
+Proof. exact broker_poll_answer_at. Qed.
+
+(* ... which are those of the latest installation: nothing that happened before it, and no poll answered
+   since, has any influence. *)
+Theorem C06_broker_decision_follows_latest_install :
+  forall (cfg0 : broker_cfg) (before : list broker_event) (c : broker_cfg) (polls : list broker_event)
+         (pat : option bytes) (post : list broker_event),
+  forallb is_poll polls = true ->
+  nth_error (broker_run cfg0 (before ++ EvInstall c :: polls ++ EvPoll pat :: post))
+            (List.length before + S (List.length polls))
+  = Some (Some (broker_accepts_poll c pat)).
+Proof. exact broker_poll_answer_after_install. Qed.
+
+(* With fixed patterns the run of the context is the pointwise image of the single-poll decision. *)
+Theorem C06_broker_run_is_map : forall (cfg : broker_cfg) (pats : list (option bytes)),
+  broker_run cfg (map EvPoll pats) = map (fun pat => Some (broker_accepts_poll cfg pat)) pats.
+Proof. exact broker_run_polls. Qed.
+
+(* A poll whose (effective) pattern is not a superset of the allowed pattern is rejected after ANY history. *)
+Theorem C06_broker_rejects_after_any_history : forall (cfg : broker_cfg) (pre : list broker_event) (pat : option bytes)
+                                                      (post : list broker_event),
+  let cur := broker_cfg_after cfg pre in
+  is_superset_of (new_matcher (effective_pattern cur pat)) (new_matcher (allowed_pattern cur)) = false ->
+  nth_error (broker_run cfg (pre ++ EvPoll pat :: post)) (List.length pre) = Some (Some false).
+Proof. exact broker_rejects_after_any_history. Qed.
+
+(* The same through the matching machine: along any run of the gated machine from any state (any interleaving
+   of polls, client offers, answers, timeouts) the reply to each label is a function of that label alone. *)
+Theorem C06_gate_replies_history_independent : forall cfg v (gs : list glabel) s s' rs,
+  grun cfg v s gs = Some (s', rs) -> rs = map (gate_reply cfg) gs.
+Proof. exact grun_replies. Qed.
+
+Theorem C06_gate_rejects_at_every_point : forall cfg v s (pre : list glabel) sd n pt cl pat (post : list glabel) s' rs,
+  broker_accepts_poll cfg pat = false ->
+  grun cfg v s (pre ++ G_ProxyPoll sd n pt cl pat :: post) = Some (s', rs) ->
+  nth_error rs (List.length pre) = Some (Some RejectedPattern).
+Proof. exact grun_rejects_at. Qed.
+
+(* One proxy over any sequence of relay URLs: each decision is the single-URL decision ... *)
+Theorem C06_proxy_history_independent : forall (cfg : proxy_cfg) (pre : list relay_offer) (raw : bytes) (pu : parsed_url)
+                                               (post : list relay_offer),
+  nth_error (proxy_run cfg (pre ++ (raw, pu) :: post)) (List.length pre) = Some (proxy_relay_decision cfg raw pu).
+Proof. exact proxy_decision_at. Qed.
+
+Theorem C06_proxy_run_is_map : forall (cfg : proxy_cfg) (offers : list relay_offer),
+  proxy_run cfg offers = map (fun o : relay_offer => proxy_relay_decision cfg (fst o) (snd o)) offers.
+Proof. exact proxy_run_map. Qed.
+
+(* ... so after any history the broker-supplied URL is dialled only if its hostname passes the proxy's own
+   pattern and its scheme is wss unless non-TLS relays were explicitly allowed. *)
+Theorem C06_proxy_never_dials_after_any_history : forall (cfg : proxy_cfg) (pre : list relay_offer) (raw : bytes)
+                                                         (pu : parsed_url) (post : list relay_offer),
+  nth_error (proxy_run cfg (pre ++ (raw, pu) :: post)) (List.length pre) = Some DialBrokerURL ->
+  raw <> [] /\ exists scheme host, pu = Parsed scheme host
+     /\ is_member (new_matcher (relay_pattern cfg)) host = true
+     /\ (allow_non_tls cfg = true \/ scheme = WSS).
+Proof. exact proxy_never_dials_after_any_history. Qed.
+
+(* non-vacuity: the histories of the two seeded defects this part was written for *)
+Example C06_broker_history_nonvacuous :
+  let cfg := mk_broker_cfg (bs "snowflake.torproject.net$") (bs "snowflake.bamsoftware.com$") in
+  let cfg2 := mk_broker_cfg (bs "snowflake.torproject.net$") (bs "torproject.net$") in
+  broker_run cfg [EvPoll None; EvPoll (Some (bs "snowflake.bamsoftware.com$")); EvPoll (Some []); EvPoll None;
+                  EvInstall cfg2; EvPoll None; EvInstall cfg; EvPoll None]
+  = [Some false; Some false; Some true; Some false; None; Some true; None; Some false]
+  /\ forallb is_poll [EvPoll (Some []); EvPoll None] = true
+  /\ is_superset_of (new_matcher (effective_pattern (broker_cfg_after cfg [EvPoll (Some [])]) None))
+                    (new_matcher (allowed_pattern (broker_cfg_after cfg [EvPoll (Some [])]))) = false.
+Proof. vm_compute. repeat split. Qed.
+
+Example C06_gate_history_nonvacuous :
+  let cfg := mk_broker_cfg (bs "snowflake.torproject.net$") (bs "snowflake.bamsoftware.com$") in
+  exists s' , grun cfg V1 (init [(7, 9)])
+    [G_ProxyPoll 1 NatUnrestricted 1 0 None; G_ProxyPoll 2 NatUnrestricted 1 0 (Some []);
+     G_ProxyPoll 3 NatUnrestricted 1 0 None]
+    = Some (s', [Some RejectedPattern; Some Registered; Some RejectedPattern])
+  /\ broker_accepts_poll cfg None = false.
+Proof. eexists. vm_compute. split; reflexivity. Qed.
+
+Example C06_proxy_history_nonvacuous :
+  let cfg := mk_proxy_cfg (bs "snowflake.torproject.net$") false in
+  let h := bs "01.snowflake.torproject.net" in
+  proxy_run cfg [(bs "wss://01.snowflake.torproject.net/", Parsed (bs "wss") h);
+                 (bs "ws://01.snowflake.torproject.net/", Parsed (bs "ws") h);
+                 (bs "wss://01.snowflake.torproject.net/", Parsed (bs "wss") h)]
+  = [DialBrokerURL; Refuse; DialBrokerURL].
+Proof. vm_compute. reflexivity. Qed.
